@@ -5,50 +5,70 @@
   for every strategy, and lookup finds exactly the entry whose key is equal to the probe.
 
   All inductions are on the recursion fuel (which is the C code's depth budget); values
-  are related to a fuel by `depth v < f`.
+  are related to a fuel by `depth v < f`.  The work is done in `EqualAux1` … `EqualAux7`
+  (list combinatorics; one level of the recursion with the recursive call abstracted;
+  scalar kinds; collection kinds; the inductions); this file states the results.
+
+  Statement changes against the skeleton (both needed, see the counterexample):
+  `eqvF_refl` and `Eqv_refl` take `WF cfg a`.  Without it they are false: the map with
+  keys `[nil, nil]` and values `[1, 2]` is not equal to itself (the second entry finds the
+  first key and compares `2` with `1`), nor is a map with more keys than values.
 -/
 import Edn.Spec.Eqv
+import Edn.Proofs.EqualAux7
 
 namespace Edn.Proofs
 open Edn.Model Edn.Spec
 
 /-! ## depth -/
 
-theorem depth_le_depthL {x : Val} {xs : List Val} (h : x ∈ xs) : depth x ≤ depthL xs := by
-  sorry
+theorem depth_le_depthL {x : Val} {xs : List Val} (h : x ∈ xs) : depth x ≤ depthL xs :=
+  depth_le_depthL_aux xs x h
 
 /-! ## fuel stability: once the fuel exceeds the left operand's depth the answer is fixed -/
 
 theorem eqvF_fuel (cfg : Cfg) : ∀ (f f' : Nat) (a b : Val), depth a < f → depth a < f' →
-    eqvF cfg f a b = eqvF cfg f' a b := by
-  sorry
+    eqvF cfg f a b = eqvF cfg f' a b :=
+  eqvF_fuel_aux cfg
 
 /-! ## equivalence -/
 
-theorem eqvF_refl (cfg : Cfg) : ∀ (f : Nat) (a : Val), depth a < f → eqvF cfg f a a = true := by
-  sorry
+/-- (statement change: `WF cfg a` added; a map with duplicate keys is not equal to itself) -/
+theorem eqvF_refl (cfg : Cfg) : ∀ (f : Nat) (a : Val), depth a < f → WF cfg a →
+    eqvF cfg f a a = true :=
+  fun f a hd hw => eqvF_refl_aux cfg f a ⟨hd, hw⟩
 
 theorem eqvF_symm (cfg : Cfg) : ∀ (f : Nat) (a b : Val), depth a < f → depth b < f →
-    WF cfg a → WF cfg b → eqvF cfg f a b = true → eqvF cfg f b a = true := by
-  sorry
+    WF cfg a → WF cfg b → eqvF cfg f a b = true → eqvF cfg f b a = true :=
+  fun f a b hda hdb hwa hwb h => eqvF_symm_aux cfg f a b ⟨hda, hwa⟩ ⟨hdb, hwb⟩ h
 
 theorem eqvF_trans (cfg : Cfg) : ∀ (f : Nat) (a b c : Val), depth a < f → depth b < f → depth c < f →
     WF cfg a → WF cfg b → WF cfg c →
-    eqvF cfg f a b = true → eqvF cfg f b c = true → eqvF cfg f a c = true := by
-  sorry
+    eqvF cfg f a b = true → eqvF cfg f b c = true → eqvF cfg f a c = true :=
+  fun f a b c hda hdb hdc hwa hwb hwc h h' =>
+    eqvF_trans_aux cfg f a b c ⟨hda, hwa⟩ ⟨hdb, hwb⟩ ⟨hdc, hwc⟩ h h'
+
+/-- the skeleton's `eqvF_refl` (without `WF`) does not hold: a map with a repeated key -/
+theorem eqvF_refl_needs_WF :
+    ¬ ∀ (cfg : Cfg) (f : Nat) (a : Val), depth a < f → eqvF cfg f a a = true := by
+  intro h
+  have := h Cfg.core 2
+    (.map (mkHdr 0 0) none [.nil (mkHdr 0 0), .nil (mkHdr 0 0)]
+      [.bool (mkHdr 0 0) true, .bool (mkHdr 0 0) false]) (by decide)
+  exact absurd this (by decide)
 
 /-! ## hashing is a congruence -/
 
 theorem hash_congr (cfg : Cfg) : ∀ (f : Nat) (a b : Val), depth a < f → depth b < f →
-    WF cfg a → WF cfg b → eqvF cfg f a b = true → hashV cfg a = hashV cfg b := by
-  sorry
+    WF cfg a → WF cfg b → eqvF cfg f a b = true → hashV cfg a = hashV cfg b :=
+  fun f a b hda hdb hwa hwb h => hash_at cfg f a b ⟨hda, hwa⟩ ⟨hdb, hwb⟩ h
 
 /-! ## the cached-hash short circuit never changes an answer -/
 
 theorem equalF_eq_eqvF (cfg : Cfg) : ∀ (f : Nat) (a b : Val), depth a < f → depth b < f →
     WF cfg a → WF cfg b → cacheOK cfg a = true → cacheOK cfg b = true →
-    equalF cfg f a b = eqvF cfg f a b := by
-  sorry
+    equalF cfg f a b = eqvF cfg f a b :=
+  fun f a b hda hdb hwa hwb hca hcb => equalF_eq_eqvF_aux cfg f a b ⟨hda, hwa⟩ ⟨hdb, hwb⟩ hca hcb
 
 /-- `edn_value_hash` keeps every cache cell valid and does not change the value otherwise -/
 theorem hashOp_cacheOK (cfg : Cfg) (v : Val) (h : cacheOK cfg v = true) :
@@ -56,24 +76,35 @@ theorem hashOp_cacheOK (cfg : Cfg) (v : Val) (h : cacheOK cfg v = true) :
     (WF cfg v → WF cfg (hashOp cfg v).2) ∧
     (∀ f b, eqvF cfg f (hashOp cfg v).2 b = eqvF cfg f v b) ∧
     (∀ f b, eqvF cfg f b (hashOp cfg v).2 = eqvF cfg f b v) ∧
-    hashV cfg (hashOp cfg v).2 = hashV cfg v := by
-  sorry
+    hashV cfg (hashOp cfg v).2 = hashV cfg v :=
+  hashOp_facts cfg v h
 
 /-! ## corollaries in terms of `Eqv` and the model's `equal` -/
 
-theorem Eqv_refl (cfg : Cfg) (a : Val) : Eqv cfg a a := by
-  sorry
+/-- (statement change: `WF cfg a` added, as for `eqvF_refl`) -/
+theorem Eqv_refl (cfg : Cfg) (a : Val) (ha : WF cfg a) : Eqv cfg a a :=
+  eqvF_refl cfg (depth a + 1) a (Nat.lt_succ_self _) ha
 
 theorem Eqv_symm (cfg : Cfg) (a b : Val) (ha : WF cfg a) (hb : WF cfg b) : Eqv cfg a b → Eqv cfg b a := by
-  sorry
+  intro h
+  have hd := depth_eq_of_eqvF cfg (depth a + 1) a b (Nat.lt_succ_self _) ha hb h
+  unfold Eqv
+  rw [hd]
+  exact eqvF_symm cfg (depth a + 1) a b (Nat.lt_succ_self _) (by omega) ha hb h
 
 theorem Eqv_trans (cfg : Cfg) (a b c : Val) (ha : WF cfg a) (hb : WF cfg b) (hc : WF cfg c) :
     Eqv cfg a b → Eqv cfg b c → Eqv cfg a c := by
-  sorry
+  intro h h'
+  have hd := depth_eq_of_eqvF cfg (depth a + 1) a b (Nat.lt_succ_self _) ha hb h
+  have hd' := depth_eq_of_eqvF cfg (depth b + 1) b c (Nat.lt_succ_self _) hb hc h'
+  have h'' : eqvF cfg (depth a + 1) b c = true := by rw [← hd]; exact h'
+  exact eqvF_trans cfg (depth a + 1) a b c (Nat.lt_succ_self _) (by omega) (by omega) ha hb hc h h''
 
 theorem Eqv_hash (cfg : Cfg) (a b : Val) (ha : WF cfg a) (hb : WF cfg b) :
     Eqv cfg a b → hashV cfg a = hashV cfg b := by
-  sorry
+  intro h
+  have hd := depth_eq_of_eqvF cfg (depth a + 1) a b (Nat.lt_succ_self _) ha hb h
+  exact hash_congr cfg (depth a + 1) a b (Nat.lt_succ_self _) (by omega) ha hb h
 
 /-- the model's `edn_value_equal` decides `Eqv` for all values within the depth the reader
     can produce, whatever the (valid) state of the caches -/
@@ -81,7 +112,9 @@ theorem equal_iff_Eqv (cfg : Cfg) (a b : Val)
     (hda : depth a < maxDepthFuel) (hdb : depth b < maxDepthFuel)
     (ha : WF cfg a) (hb : WF cfg b) (hca : cacheOK cfg a = true) (hcb : cacheOK cfg b = true) :
     equal cfg a b = true ↔ Eqv cfg a b := by
-  sorry
+  unfold equal
+  rw [equalF_eq_eqvF cfg maxDepthFuel a b hda hdb ha hb hca hcb]
+  exact (Eqv_iff cfg hda).symm
 
 /-! ## duplicates (C08) -/
 
@@ -89,9 +122,103 @@ theorem equal_iff_Eqv (cfg : Cfg) (a b : Val)
 def Elems (cfg : Cfg) (xs : List Val) : Prop :=
   ∀ x ∈ xs, depth x < maxDepthFuel ∧ WF cfg x ∧ cacheOK cfg x = true
 
+theorem Elems.tail {cfg : Cfg} {x : Val} {xs : List Val} (h : Elems cfg (x :: xs)) : Elems cfg xs :=
+  fun y hy => h y (List.mem_cons_of_mem _ hy)
+
+theorem Elems.equal_iff {cfg : Cfg} {xs : List Val} (h : Elems cfg xs) {x y : Val}
+    (hx : x ∈ xs) (hy : y ∈ xs) : equal cfg x y = true ↔ Eqv cfg x y :=
+  equal_iff_Eqv cfg x y (h x hx).1 (h y hy).1 (h x hx).2.1 (h y hy).2.1 (h x hx).2.2 (h y hy).2.2
+
 theorem hasDupLinear_iff (cfg : Cfg) (xs : List Val) (h : Elems cfg xs) :
     hasDupLinear cfg xs = false ↔ pairwiseDistinct cfg xs := by
-  sorry
+  induction xs with
+  | nil => exact ⟨fun _ => List.Pairwise.nil, fun _ => rfl⟩
+  | cons x xs ih =>
+    show ((xs.any fun y => equal cfg x y) || hasDupLinear cfg xs) = false ↔ _
+    unfold pairwiseDistinct
+    rw [Bool.or_eq_false_iff, List.any_eq_false, List.pairwise_cons, ih h.tail]
+    unfold pairwiseDistinct
+    have e : (∀ y ∈ xs, ¬ equal cfg x y = true) ↔ (∀ y ∈ xs, ¬ Eqv cfg x y ∧ ¬ Eqv cfg y x) := by
+      constructor
+      · intro h1 y hy
+        have hxy : ¬ Eqv cfg x y := fun he =>
+          h1 y hy ((h.equal_iff List.mem_cons_self (List.mem_cons_of_mem _ hy)).mpr he)
+        exact ⟨hxy, fun he => hxy (Eqv_symm cfg y x (h y (List.mem_cons_of_mem _ hy)).2.1
+          (h x List.mem_cons_self).2.1 he)⟩
+      · intro h1 y hy he
+        exact (h1 y hy).1 ((h.equal_iff List.mem_cons_self (List.mem_cons_of_mem _ hy)).mp he)
+    rw [e]
+
+/-- when every top cache cell holds the hash, the hash-restricted strategies compare exactly
+    the pairs that matter -/
+theorem hasDupHashed_eq_linear (cfg : Cfg) (ys : List Val) (h : Elems cfg ys)
+    (hh : ∀ y ∈ ys, y.hdr.hc = cacheOf (hashV cfg y)) :
+    hasDupHashed cfg ys = hasDupLinear cfg ys := by
+  induction ys with
+  | nil => rfl
+  | cons x ys ih =>
+    show ((ys.any fun y => x.hdr.hc == y.hdr.hc && equal cfg x y) || hasDupHashed cfg ys)
+      = ((ys.any fun y => equal cfg x y) || hasDupLinear cfg ys)
+    rw [ih h.tail fun y hy => hh y (List.mem_cons_of_mem _ hy)]
+    congr 1
+    apply any_congr_mem
+    intro y hy
+    cases he : equal cfg x y with
+    | false => rw [Bool.and_false]
+    | true =>
+      have hm := List.mem_cons_of_mem x hy
+      have hE := (h.equal_iff List.mem_cons_self hm).mp he
+      have := Eqv_hash cfg x y (h x List.mem_cons_self).2.1 (h y hm).2.1 hE
+      rw [hh x List.mem_cons_self, hh y hm, this, Bool.and_true]
+      exact beq_self_eq_true _
+
+theorem Eqv_hashOp (cfg : Cfg) (x y : Val) (hx : cacheOK cfg x = true) (hy : cacheOK cfg y = true) :
+    Eqv cfg (hashOp cfg x).2 (hashOp cfg y).2 ↔ Eqv cfg x y := by
+  obtain ⟨-, hd, -, hl, -, -⟩ := hashOp_cacheOK cfg x hx
+  obtain ⟨-, -, -, -, hr, -⟩ := hashOp_cacheOK cfg y hy
+  unfold Eqv
+  rw [hd, hl, hr]
+
+theorem Elems_hashOp (cfg : Cfg) (xs : List Val) (h : Elems cfg xs) :
+    Elems cfg (xs.map fun x => (hashOp cfg x).2) := by
+  intro y hy
+  obtain ⟨x, hx, rfl⟩ := List.mem_map.mp hy
+  obtain ⟨hc, hd, hw, -, -, -⟩ := hashOp_cacheOK cfg x (h x hx).2.2
+  exact ⟨by rw [hd]; exact (h x hx).1, hw (h x hx).2.1, hc⟩
+
+theorem pairwiseDistinct_hashOp (cfg : Cfg) (xs : List Val) (h : Elems cfg xs) :
+    pairwiseDistinct cfg (xs.map fun x => (hashOp cfg x).2) ↔ pairwiseDistinct cfg xs := by
+  unfold pairwiseDistinct
+  rw [List.pairwise_map]
+  constructor
+  · intro hp
+    refine List.Pairwise.imp_of_mem ?_ hp
+    intro a b ha hb hab
+    rw [Eqv_hashOp cfg a b (h a ha).2.2 (h b hb).2.2, Eqv_hashOp cfg b a (h b hb).2.2 (h a ha).2.2] at hab
+    exact hab
+  · intro hp
+    refine List.Pairwise.imp_of_mem ?_ hp
+    intro a b ha hb hab
+    rw [Eqv_hashOp cfg a b (h a ha).2.2 (h b hb).2.2, Eqv_hashOp cfg b a (h b hb).2.2 (h a ha).2.2]
+    exact hab
+
+theorem depthL_hashOp (cfg : Cfg) : ∀ (xs : List Val), (∀ x ∈ xs, cacheOK cfg x = true) →
+    depthL (xs.map fun x => (hashOp cfg x).2) = depthL xs := by
+  intro xs
+  induction xs with
+  | nil => intro _; rfl
+  | cons x xs ih =>
+    intro h
+    rw [List.map_cons, depthL_cons, depthL_cons, ih fun y hy => h y (List.mem_cons_of_mem _ hy),
+      (hashOp_cacheOK cfg x (h x List.mem_cons_self)).2.1]
+
+theorem pairwiseDistinct_small (cfg : Cfg) (xs : List Val) (h : xs.length ≤ 1) :
+    pairwiseDistinct cfg xs := by
+  unfold pairwiseDistinct
+  match xs, h with
+  | [], _ => exact List.Pairwise.nil
+  | [x], _ => exact List.pairwise_singleton _ _
+  | _ :: _ :: _, h => simp at h
 
 /-- every strategy (and therefore every element count and threshold) decides the same thing,
     and the elements come back unchanged up to filled-in cache cells -/
@@ -101,14 +228,81 @@ theorem hasDuplicates_iff (cfg : Cfg) (xs : List Val) (h : Elems cfg xs) :
     (hasDuplicates cfg xs).2.length = xs.length ∧
     (pairwiseDistinct cfg xs → pairwiseDistinct cfg (hasDuplicates cfg xs).2) ∧
     depthL (hasDuplicates cfg xs).2 = depthL xs := by
-  sorry
+  unfold hasDuplicates
+  by_cases h1 : xs.length ≤ 1
+  · rw [if_pos h1]
+    exact ⟨⟨fun _ => pairwiseDistinct_small cfg xs h1, fun _ => rfl⟩, h, rfl, id, rfl⟩
+  · rw [if_neg h1]
+    by_cases h2 : xs.length ≤ Generated.Tables.linearThreshold
+    · rw [if_pos h2]
+      exact ⟨hasDupLinear_iff cfg xs h, h, rfl, id, rfl⟩
+    · rw [if_neg h2]
+      have hE := Elems_hashOp cfg xs h
+      have hh : ∀ y ∈ xs.map (fun x => (hashOp cfg x).2), y.hdr.hc = cacheOf (hashV cfg y) := by
+        intro y hy
+        obtain ⟨x, hx, rfl⟩ := List.mem_map.mp hy
+        rw [hashOp_hc cfg x (h x hx).2.2, (hashOp_cacheOK cfg x (h x hx).2.2).2.2.2.2.2]
+      refine ⟨?_, hE, List.length_map _, (pairwiseDistinct_hashOp cfg xs h).mpr,
+        depthL_hashOp cfg xs fun x hx => (h x hx).2.2⟩
+      show hasDupHashed cfg _ = false ↔ _
+      rw [hasDupHashed_eq_linear cfg _ hE hh, hasDupLinear_iff cfg _ hE,
+        pairwiseDistinct_hashOp cfg xs h]
 
 /-- the verdict does not depend on the order of the elements -/
 theorem hasDuplicates_perm (cfg : Cfg) (xs ys : List Val) (h : Elems cfg xs) (hp : xs.Perm ys) :
     (hasDuplicates cfg xs).1 = (hasDuplicates cfg ys).1 := by
-  sorry
+  have h' : Elems cfg ys := fun y hy => h y (hp.mem_iff.mpr hy)
+  have e1 := (hasDuplicates_iff cfg xs h).1
+  have e2 := (hasDuplicates_iff cfg ys h').1
+  have e3 : pairwiseDistinct cfg xs ↔ pairwiseDistinct cfg ys :=
+    List.Perm.pairwise_iff (fun hxy => ⟨hxy.2, hxy.1⟩) hp
+  have e : (hasDuplicates cfg xs).1 = false ↔ (hasDuplicates cfg ys).1 = false :=
+    e1.trans (e3.trans e2.symm)
+  cases hx : (hasDuplicates cfg xs).1 <;> cases hy : (hasDuplicates cfg ys).1 <;> simp_all
 
 /-! ## lookup (C09) -/
+
+theorem map_keys_Elems (cfg : Cfg) (h : Hdr) (md : Option Val) (ks vs : List Val)
+    (hm : WF cfg (.map h md ks vs)) (hd : depth (.map h md ks vs) < maxDepthFuel)
+    (hc : cacheOK cfg (.map h md ks vs) = true) : Elems cfg ks := by
+  intro k hk
+  have hch : k ∈ children (.map h md ks vs) := List.mem_append_left _ hk
+  exact ⟨Nat.lt_trans (depth_child hch) hd, WF_child cfg hm hch, cacheOK_child cfg hc hch⟩
+
+theorem go_index (cfg : Cfg) (probe : Val)
+    (hp : WF cfg probe) (hpd : depth probe < maxDepthFuel) (hpc : cacheOK cfg probe = true) :
+    ∀ (ks vs : List Val) (i : Nat), ks.length = vs.length → pairwiseDistinct cfg ks → Elems cfg ks →
+      ∀ (hi : i < ks.length), Eqv cfg ks[i] probe → mapLookup.go cfg probe ks vs = vs[i]? := by
+  intro ks
+  induction ks with
+  | nil => intro vs i _ _ _ hi; exact absurd hi (Nat.not_lt_zero _)
+  | cons k ks ih =>
+    intro vs i hl hd hE hi heq
+    cases vs with
+    | nil => simp at hl
+    | cons v vs =>
+      show (if equal cfg k probe = true then some v else mapLookup.go cfg probe ks vs) = _
+      have hk := hE k List.mem_cons_self
+      have hkp : equal cfg k probe = true ↔ Eqv cfg k probe :=
+        equal_iff_Eqv cfg k probe hk.1 hpd hk.2.1 hp hk.2.2 hpc
+      cases i with
+      | zero =>
+        rw [if_pos (hkp.mpr heq)]; rfl
+      | succ i =>
+        have hi' : i < ks.length := by simpa using hi
+        have heq' : Eqv cfg ks[i] probe := heq
+        have hmem : ks[i] ∈ ks := List.getElem_mem hi'
+        have hki := hE ks[i] (List.mem_cons_of_mem _ hmem)
+        unfold pairwiseDistinct at hd
+        rw [List.pairwise_cons] at hd
+        have hne : ¬ equal cfg k probe = true := by
+          intro he
+          have h1 := hkp.mp he
+          have h2 := Eqv_symm cfg ks[i] probe hki.2.1 hp heq'
+          exact (hd.1 ks[i] hmem).1 (Eqv_trans cfg k probe ks[i] hk.2.1 hp hki.2.1 h1 h2)
+        rw [if_neg hne]
+        rw [ih vs i (by simpa using hl) hd.2 hE.tail hi' heq']
+        rfl
 
 /-- looking up a value equal to key `i` of a well-formed map yields value `i` -/
 theorem mapLookup_index (cfg : Cfg) (h : Hdr) (md : Option Val) (ks vs : List Val) (probe : Val) (i : Nat)
@@ -117,7 +311,27 @@ theorem mapLookup_index (cfg : Cfg) (h : Hdr) (md : Option Val) (ks vs : List Va
     (hp : WF cfg probe) (hpd : depth probe < maxDepthFuel) (hpc : cacheOK cfg probe = true)
     (hi : i < ks.length) (heq : Eqv cfg ks[i] probe) :
     mapLookup cfg (.map h md ks vs) probe = vs[i]? := by
-  sorry
+  obtain ⟨hdist, hl, -, -⟩ := WF_map hm
+  exact go_index cfg probe hp hpd hpc ks vs i hl hdist (map_keys_Elems cfg h md ks vs hm hd hc) hi heq
+
+theorem go_absent (cfg : Cfg) (probe : Val)
+    (hp : WF cfg probe) (hpd : depth probe < maxDepthFuel) (hpc : cacheOK cfg probe = true) :
+    ∀ (ks vs : List Val), Elems cfg ks → (∀ k ∈ ks, ¬ Eqv cfg k probe) →
+      mapLookup.go cfg probe ks vs = none := by
+  intro ks
+  induction ks with
+  | nil => intro vs _ _; rfl
+  | cons k ks ih =>
+    intro vs hE hne
+    cases vs with
+    | nil => rfl
+    | cons v vs =>
+      show (if equal cfg k probe = true then some v else mapLookup.go cfg probe ks vs) = none
+      have hk := hE k List.mem_cons_self
+      have hkp : equal cfg k probe = true ↔ Eqv cfg k probe :=
+        equal_iff_Eqv cfg k probe hk.1 hpd hk.2.1 hp hk.2.2 hpc
+      rw [if_neg fun he => hne k List.mem_cons_self (hkp.mp he)]
+      exact ih vs hE.tail fun k' hk' => hne k' (List.mem_cons_of_mem _ hk')
 
 /-- a probe equal to no key is not found -/
 theorem mapLookup_absent (cfg : Cfg) (h : Hdr) (md : Option Val) (ks vs : List Val) (probe : Val)
@@ -125,14 +339,23 @@ theorem mapLookup_absent (cfg : Cfg) (h : Hdr) (md : Option Val) (ks vs : List V
     (hc : cacheOK cfg (.map h md ks vs) = true)
     (hp : WF cfg probe) (hpd : depth probe < maxDepthFuel) (hpc : cacheOK cfg probe = true)
     (hne : ∀ k ∈ ks, ¬ Eqv cfg k probe) :
-    mapLookup cfg (.map h md ks vs) probe = none := by
-  sorry
+    mapLookup cfg (.map h md ks vs) probe = none :=
+  go_absent cfg probe hp hpd hpc ks vs (map_keys_Elems cfg h md ks vs hm hd hc) hne
 
 theorem setContains_iff (cfg : Cfg) (h : Hdr) (md : Option Val) (xs : List Val) (probe : Val)
     (hm : WF cfg (.set h md xs)) (hd : depth (.set h md xs) < maxDepthFuel)
     (hc : cacheOK cfg (.set h md xs) = true)
     (hp : WF cfg probe) (hpd : depth probe < maxDepthFuel) (hpc : cacheOK cfg probe = true) :
     setContains cfg (.set h md xs) probe = true ↔ ∃ x ∈ xs, Eqv cfg x probe := by
-  sorry
+  show (xs.any fun e => equal cfg e probe) = true ↔ _
+  rw [List.any_eq_true]
+  have key : ∀ x ∈ xs, (equal cfg x probe = true ↔ Eqv cfg x probe) := by
+    intro x hx
+    have hch : x ∈ children (.set h md xs) := hx
+    exact equal_iff_Eqv cfg x probe (Nat.lt_trans (depth_child hch) hd) hpd (WF_child cfg hm hch) hp
+      (cacheOK_child cfg hc hch) hpc
+  constructor
+  · intro ⟨x, hx, he⟩; exact ⟨x, hx, (key x hx).mp he⟩
+  · intro ⟨x, hx, he⟩; exact ⟨x, hx, (key x hx).mpr he⟩
 
 end Edn.Proofs
